@@ -430,6 +430,15 @@ def splitKey (k : List Char) : Option (List Char × List Char × List Char) :=
     | none => none
     | some (r, nm) => some (d, r, nm)
 
+/-- `str.strip()` -/
+def strip (P : PyRe) (l : List Char) : List Char := rstrip P (l.dropWhile P.isSpace)
+
+/-- the display title `generate_inventory` exports: the text of the title, whitespace-normalised and stripped
+(`normalize_target(...).strip()`); nothing when that leaves nothing -/
+def exportTitle (P : PyRe) (title : List Char) : Option (List Char) :=
+  let t := strip P (normalizeWs P title)
+  if t = [] then none else some t
+
 /-- one iteration of the loop of `generate_inventory` (first definition of the key) -/
 def generateEntry (P : PyRe) (key : List Char) (d : LocalDef) : Option Entry :=
   match asDirhtml d.fileid with
@@ -442,7 +451,7 @@ def generateEntry (P : PyRe) (key : List Char) (d : LocalDef) : Option Entry :=
       -- the name is exported the way keys are kept and queries are normalised (`normalize_target`): a newline or a run
       -- of blanks in a directive argument / glossary term would otherwise break the line format, or never be found
       some { name := normalizeWs P d.canonical, domain := dom, role := role, priority := -1, uriBase := u, uri := u,
-             display := if d.title = [] then none else some d.title }
+             display := exportTitle P d.title }
 
 /-- `generate_inventory`: `none` = an exception escaped -/
 def generateInventory (P : PyRe) : List (List Char × List LocalDef) → Option Dict
